@@ -233,7 +233,7 @@ func (ra *regAnalysis) solve() {
 
 func checkC18(c *Ctx) {
 	r, t := c.R, c.T
-	r.Explanation = "Decides the structural clauses of the v2 interpreter's register discipline and its agreement with v1: (1) REG-DEFINED: a forward dataflow over every function of runtimev2 tracks who last touched the result register (untouched since entry = stale / a sub-evaluation / the function's own ReturnAppend or Reset / a host function called on a cleared register), with interprocedural summaries for helpers; every evaluator of an operand-capable node kind (the kinds the grammar symbol `expr` can carry, from the grammar kind fixpoint, dispatched by RunExpr) must end each success path with its own write, a cleared register handed to a host function, or the tail delegation to exactly one other evaluator — so a construct that yields no value leaves the register empty and its consumer's GetRet reports an error instead of an earlier value; GetParam* leave the register cleared; (2) REG-CONSUME: every GetRet/GetMultiRet/Count reads a register whose only possible last writers are evaluator calls on a node proved non-nil (RunExpr(nil) returns without touching the register) — never the state at function entry; (3) REG-WRITERS: PlReg.Val is written only by Reset and ReturnAppend; (4) SIBLING-TABLE: each of the 1666 operator/truthiness cells extracted from v2 equals the v1 cell; (5) DIFF: an undefined name is an error without register write, and in multi-assignment no store precedes the evaluation of a right-hand side; (6) PANIC-*: the C01 panic-site rules over everything reachable from v2's Script.Run and GetParam* that C01 does not already cover. Index walks, slices and literals of v2 are decided under C04, truthiness/loop rules under C03, argument binding under C19. Not decided: value-level equality with a reference semantics, and host functions that evaluate arguments themselves with RunExpr and return without ReturnAppend/Reset (outside the repository; the contract is stated in DESIGN.md)."
+	r.Explanation = "Decides the structural clauses of the v2 interpreter's register discipline and its agreement with v1: (1) REG-DEFINED: a forward dataflow over every function of runtimev2 tracks who last touched the result register (untouched since entry = stale / a sub-evaluation / the function's own ReturnAppend or Reset / a host function called on a cleared register), with interprocedural summaries for helpers; every evaluator of an operand-capable node kind (the kinds the grammar symbol `expr` can carry, from the grammar kind fixpoint, dispatched by RunExpr) must end each success path with its own write, a cleared register handed to a host function, or the tail delegation to exactly one other evaluator — so a construct that yields no value leaves the register empty and its consumer's GetRet reports an error instead of an earlier value; GetParam* leave the register cleared; (2) REG-CONSUME: every GetRet/GetMultiRet/Count reads a register whose only possible last writers are evaluator calls on a node proved non-nil (RunExpr(nil) returns without touching the register) — never the state at function entry; (3) REG-WRITERS: PlReg.Val is written only by Reset and ReturnAppend; (4) SIBLING-TABLE: each of the 1666 operator/truthiness cells extracted from v2 equals the v1 cell; (5) DIFF: an undefined name is an error without register write, and in multi-assignment no store precedes the evaluation of a right-hand side; (6) PANIC-*: the C01 panic-site rules over everything reachable from v2's Script.Run and GetParam* that C01 does not already cover. (7) the v2 half of the C03 control-flow rules (first truthy branch only, scope enter/exit pairing, loop flags, per-iteration scope wipe on every path between two body executions). Index walks, slices and literals of v2 are decided under C04, argument binding under C19. Not decided: value-level equality with a reference semantics, and host functions that evaluate arguments themselves with RunExpr and return without ReturnAppend/Reset (outside the repository; the contract is stated in DESIGN.md)."
 	r.Trusted = []string{"host functions honour the FnCall contract when they evaluate arguments themselves", "the parameter index a host function passes to GetParam* is not negative"}
 	pk := t.SSA[pRT2]
 	if pk == nil {
@@ -626,6 +626,12 @@ func checkC18(c *Ctx) {
 
 	// ---- DIFF
 	c18Diff(c, ra, runExpr, s2k)
+
+	// ---- control flow and scoping of the v2 interpreter (the v2 half of the C03 rules)
+	c03If(c, pRT2, "runtimev2")
+	c03Scopes(c, pRT2, "runtimev2")
+	c03Flags(c, pRT2, "runtimev2")
+	c03Iter(c, pRT2, "runtimev2")
 
 	// ---- PANIC over the v2 scope
 	v2s, unresolved := v2Scope(t)
